@@ -79,7 +79,7 @@ end
 
 theorem batch_breakdown (A : E →ₗ[𝕜] E) (hA : A.IsSymmetric) (n maxIters : ℕ) (v₁ v₂ : E) (a : 𝕜)
     (tol : ℝ) (hv₁ : v₁ ≠ 0) (hv₂ : v₂ ≠ 0) (heig : A v₁ = a • v₁) (hnot : ∀ c : 𝕜, A v₂ ≠ c • v₂)
-    (htol : 0 ≤ tol) (htol1 : tol < 1) (hm : 2 ≤ min maxIters n) :
+    (htol1 : tol < 1) (hm : 2 ≤ min maxIters n) :
     2 ≤ (lanczosExact A n #[v₁, v₂] maxIters tol).iters ∧
       col 0 ((lanczosExact A n #[v₁, v₂] maxIters tol).Q.getD 0 #[]) 1 = 0 := by
   obtain ⟨k, hk1, hk2, hk3, _, _, hk6⟩ := lanczos_run A n #[v₁, v₂] maxIters tol
